@@ -27,6 +27,9 @@ CHECKS = {
  'C03': ('exploration', 'reference-model monitor over enumerated and sampled executions (set model of constraints vs evaluator, E and E&atom for every atom)',
    'Exhaustive for conjunctions of <=2 constraints over the full alphabet x every atom (|E|=3 numeric sub-alphabet in thorough), PRNG-sampled beyond, plus large-magnitude/high-precision bounds probed at +-1 ulp and predeclared ranges probed around their limits; a finite set model decides each observed evaluation. Universal only inside the enumerated sub-space.',
    'Trusts the 150-line set model (written from the statement/spec), Go regexp for =~, and cue.Value accessors used to read results back.', 'DESIGN.md §4 C03'),
+ 'C08': ('exploration', 'runtime monitor around format.Source: input and output are re-scanned (cue/scanner, comment mode, interpolations resumed) and their normalised token streams must be equal - every token, literal value and comment keeps its neighbours -, the output must parse and be a fixpoint',
+   'frozen corpus (3.2k parseable sources) + 80k/1.5M layout/comment mutants of comment-free corpus files and generated programs (8 mutation kinds, 1-3 per input, comments only in the admitted position classes) + 40k/600k generated multi-line string/bytes literals (all quote forms, whitespace-only and over-indented lines).',
+   '25 corpus files on which the pinned formatter deviates are listed by name and class (8 recorded findings). Comment positions outside the admitted classes (before a closing bracket, inside comprehension clause lists, inside multi-line expressions) are not generated: the formatter moves such comments (DESIGN.md). -s is not exercised.', 'DESIGN.md §4 C08'),
  'C10': ('exploration', 'generator-ground-truth monitor: data trees written as CUE and as JSON documents (PRNG escape/whitespace/number spellings); Value.MarshalJSON, json.Marshal/Unmarshal builtins, json.Extract/Valid/NewDecoder observed and compared with the ground truth, encoding/json as independent reader; invalid neighbours must be rejected',
    '10k/300k data trees per run, each through the marshal, extract, re-marshal, stream and builtin paths plus one invalid mutant.',
    'Duplicate keys with different values and unpaired surrogates (unpredictable per RFC 8259) are not generated. One recorded finding (raw BOM inside a JSON string).', 'DESIGN.md §4 C10'),
